@@ -478,38 +478,47 @@ def reference_fit(x, y, t, k, mono, curv, test_pts, eps):
     return float(np.sum((A @ sol - y) ** 2)), sol
 
 
+def gen_fit_case(rng):
+    k = rng.choice([1, 2, 3, 3, 3, 3])
+    mono = rng.choice([0, 0, 1, 1, -1, 5])
+    curv = rng.choice([0, 0, 1, -1]) if k >= 2 else 0
+    x, y, shape, noise = gen_fit_data(rng, mono, curv)
+    if curv != 0 and rng.random() < 0.5:
+        # half of the curvature cases: data that already has the requested sign (constraints
+        # mostly inactive); the other half keeps the raw data (constraints active)
+        u = (x - x[0]) / (x[-1] - x[0])
+        y = (abs(y).max() or 1.0) * (u * u if curv > 0 else -(u * u)) * (1 if mono >= 0 else -1) + 0.01 * y
+        if mono < 0:
+            y = y[::-1].copy() if curv > 0 else y
+    ntest = rng.choice([100, 30, 15])
+    interior = None
+    if rng.random() < 0.35 and len(x) >= 6:
+        cnt = rng.randint(0, len(x) - 5)
+        interior = sorted(rng.uniform(x[1], x[-2]) for _ in range(cnt))
+    return dict(stream="fit", x=[float(v) for v in x], y=[float(v) for v in y], k=k, monotonicity=mono,
+                curvature=curv, num_test_points=ntest, interior_pts=interior, shape=shape, noisy=noise > 0)
+
+
 def stream_fit(c, N):
+    run_fit_cases(c, [gen_fit_case(c.rng) for _ in range(N)])
+
+
+def run_fit_cases(c, case_list):
     from scipy.interpolate import splev
 
     from rtctools.data.interpolation.bspline1d import BSpline1D
 
-    rng = c.rng
     cases, lines = [], []
-    for _ in range(N):
-        k = rng.choice([1, 2, 3, 3, 3, 3])
-        mono = rng.choice([0, 0, 1, 1, -1, 5])
-        curv = rng.choice([0, 0, 1, -1]) if k >= 2 else 0
-        x, y, shape, noise = gen_fit_data(rng, mono, curv)
-        if curv != 0 and rng.random() < 0.5:
-            # half of the curvature cases: data that already has the requested sign (constraints
-            # mostly inactive); the other half keeps the raw data (constraints active)
-            u = (x - x[0]) / (x[-1] - x[0])
-            y = (abs(y).max() or 1.0) * (u * u if curv > 0 else -(u * u)) * (1 if mono >= 0 else -1) + 0.01 * y
-            if mono < 0:
-                y = y[::-1].copy() if curv > 0 else y
-        ntest = rng.choice([100, 30, 15])
-        interior = None
-        if rng.random() < 0.35 and len(x) >= 6:
-            cnt = rng.randint(0, len(x) - 5)
-            interior = sorted(rng.uniform(x[1], x[-2]) for _ in range(cnt))
+    for case in case_list:
+        x, y = np.array(case["x"], dtype=float), np.array(case["y"], dtype=float)
+        k, mono, curv, ntest = case["k"], case["monotonicity"], case["curvature"], case["num_test_points"]
+        interior = case["interior_pts"]
         kw = dict(k=k, monotonicity=mono, curvature=curv, num_test_points=ntest)
         if interior is not None:
-            kw["interior_pts"] = np.array(interior)
+            kw["interior_pts"] = np.array(interior, dtype=float)
         with quiet_fd():
             r = call(BSpline1D.fit, x, y, ipopt_options={"print_level": 0, "sb": "yes"}, **kw)
-        case = dict(stream="fit", x=list(x), y=list(y), k=k, monotonicity=mono, curvature=curv,
-                    num_test_points=ntest, interior_pts=interior, shape=shape)
-        c.count(("fit", k, np.sign(mono), curv, len(x), interior is None, noise > 0))
+        c.count(("fit", k, int(np.sign(mono)), curv, len(x), interior is None, bool(case.get("noisy"))))
         c.hit("fit/k%d mono%+d curv%+d" % (k, np.sign(mono), curv))
         c.sample(case, limit=6)
         if r[0] == "raise":
@@ -636,127 +645,159 @@ def classify_rev(r):
     return "raise:" + r[1]
 
 
-def stream_reverse(c, N):
+def make_table_1d(t, w, k):
     import casadi as ca
     from scipy.interpolate import splev
+
+    from rtctools.data.interpolation.bspline1d import BSpline1D
+    from rtctools.optimization.csv_lookup_table_mixin import LookupTable
+
+    tt, ww = np.array(t, dtype=float), np.array(w, dtype=float)
+    m = len(t) - k - 1
+    sx = ca.SX.sym("x")
+    f = ca.Function("f", [sx], [BSpline1D(tt, ww, k)(sx)])
+    lt = LookupTable([sx], f, (tt, ww, k))
+    wpad = np.concatenate([ww[:m], np.zeros(k + 1)])
+    return lt, (lambda x: float(splev(x, (tt, wpad, k))))
+
+
+def gen_reverse_cases(rng, it):
+    """one table and four calls on it"""
+    k = rng.choice([1, 2, 3, 3, 3])
+    dyadic = rng.random() < 0.5
+    t = gen_knots(rng, k, rng.choice(["clamped", "fitlike"]), dyadic)
+    # continuous tables only (interior knot multiplicity <= k): the inverse lookup of a value
+    # inside a jump has no solution (brentq's contract presupposes a continuous function)
+    t = [v for i, v in enumerate(t) if v in (t[0], t[-1]) or t[:i].count(v) < k]
+    m = len(t) - k - 1
+    shape = rng.choice(["inc", "inc", "dec", "dec", "any"])
+    w = gen_weights(rng, m, dyadic, shape=shape)
+    if shape in ("inc", "dec") and len(set(w)) < len(w):
+        w = [v + (i if shape == "inc" else -i) * 0.5 for i, v in enumerate(w)]
+    if it == 0:  # corpus: the former failing input of F8a (decreasing table, fixed)
+        k, t, w, shape = 3, [0.0] * 4 + [1.0, 2.0] + [3.0] * 4, [10.0, 9.0, 8.0, 6.5, 5.5, 4.8], "dec"
+    lt, ref = make_table_1d(t, w, k)
+    dl, du = np.nextafter(t[0], INF), np.nextafter(t[-1], -INF)
+    r0, r1 = ref(dl), ref(du)
+    rlo, rhi = min(r0, r1), max(r0, r1)
+    width = max(rhi - rlo, 1e-6)
+    out = []
+    for _ in range(4):
+        ny = rng.choice([1, 1, 2, 3, 5])
+        ys = []
+        for _ in range(ny):
+            kind = rng.choice(["in", "in", "in", "in", "nan", "end", "below", "above", "far", "knotval"])
+            if it == 0 and not ys:
+                kind, v = "in", 6.0
+            elif kind == "in":
+                v = rlo + width * rng.uniform(0.02, 0.98)
+            elif kind == "nan":
+                v = NAN
+            elif kind == "end":
+                v = rng.choice(lt.range)
+            elif kind == "below":
+                v = rlo - width * rng.choice([1e-6, 0.01, 0.5])
+            elif kind == "above":
+                v = rhi + width * rng.choice([1e-6, 0.01, 0.5])
+            elif kind == "far":
+                v = rng.choice([-1e6, 1e6])
+            else:
+                v = ref(rng.choice(sorted(set(t))[:-1]))
+            ys.append(float(v))
+        detect = rng.random() < 0.8
+        domkind = rng.choice(["default", "default", "default", "lower", "both"])
+        if it == 0:
+            detect, domkind = True, "default"
+        ld = ud = None
+        if domkind in ("lower", "both"):
+            ld = float(t[0] + (t[-1] - t[0]) * rng.uniform(0.0, 0.4))
+        if domkind == "both":
+            ud = float(min(t[0] + (t[-1] - t[0]) * rng.uniform(0.6, 1.0), du))
+        form = rng.choice(["scalar", "list", "array", "timeseries"]) if ny > 1 or rng.random() < 0.5 else "scalar"
+        if form == "scalar":
+            ys = ys[:1]
+        if form == "timeseries":
+            # the Timeseries form forwards only the values (keyword arguments are dropped)
+            detect, ld, ud = True, None, None
+        out.append(dict(stream="reverse", t=t, w=w, k=k, shape=shape, ys=ys, form=form, detect=detect,
+                        domain=[ld, ud], range_ends=[float(v) for v in lt.range]))
+    return out
+
+
+def stream_reverse(c, N):
+    case_list = []
+    for it in range(N):
+        case_list += gen_reverse_cases(c.rng, it)
+    run_reverse_cases(c, case_list)
+    c.programs += N
+
+
+def run_reverse_cases(c, case_list):
     from scipy.optimize import brentq
 
-    from rtctools.optimization.csv_lookup_table_mixin import LookupTable
     from rtctools.optimization.timeseries import Timeseries
 
-    rng = c.rng
     cases, lines = [], []
-    for it in range(N):
-        k = rng.choice([1, 2, 3, 3, 3])
-        dyadic = rng.random() < 0.5
-        t = gen_knots(rng, k, rng.choice(["clamped", "fitlike"]), dyadic)
-        # continuous tables only (interior knot multiplicity <= k): the inverse lookup of a value
-        # inside a jump has no solution (brentq's contract presupposes a continuous function)
-        t = [v for i, v in enumerate(t) if v in (t[0], t[-1]) or t[:i].count(v) < k]
-        m = len(t) - k - 1
-        shape = rng.choice(["inc", "inc", "dec", "dec", "any"])
-        w = gen_weights(rng, m, dyadic, shape=shape)
-        if shape in ("inc", "dec") and len(set(w)) < len(w):
-            w = [v + (i if shape == "inc" else -i) * 0.5 for i, v in enumerate(w)]
-        if it == 0:  # corpus: the former failing input of F8a (decreasing table, fixed)
-            k, t, w, shape = 3, [0.0] * 4 + [1.0, 2.0] + [3.0] * 4, [10.0, 9.0, 8.0, 6.5, 5.5, 4.8], "dec"
-            m = 6
-        tt, ww = np.array(t), np.array(w)
-        sx = ca.SX.sym("x")
-        from rtctools.data.interpolation.bspline1d import BSpline1D
-
-        f = ca.Function("f", [sx], [BSpline1D(tt, ww, k)(sx)])
-        lt = LookupTable([sx], f, (tt, ww, k))
-        wpad = np.concatenate([ww[:m], np.zeros(k + 1)])
-        ref = (lambda tt_, wpad_, k_: (lambda x: float(splev(x, (tt_, wpad_, k_)))))(tt, wpad, k)
+    tables = {}
+    for case in case_list:
+        t, w, k = [float(v) for v in case["t"]], [float(v) for v in case["w"]], case["k"]
+        ys = [float(v) for v in case["ys"]]
+        case["ys"] = ys
+        key = (tuple(t), tuple(w), k)
+        if key not in tables:
+            tables = {key: make_table_1d(t, w, k)}
+        lt, ref = tables[key]
         dl, du = np.nextafter(t[0], INF), np.nextafter(t[-1], -INF)
         r0, r1 = ref(dl), ref(du)
         rlo, rhi = min(r0, r1), max(r0, r1)
         width = max(rhi - rlo, 1e-6)
         scale = max(1.0, max(abs(v) for v in w))
-        for _ in range(4):
-            ny = rng.choice([1, 1, 2, 3, 5])
-            ys = []
-            for _ in range(ny):
-                kind = rng.choice(["in", "in", "in", "in", "nan", "end", "below", "above", "far", "knotval"])
-                if it == 0 and not ys:
-                    kind, v = "in", 6.0
-                elif kind == "in":
-                    v = rlo + width * rng.uniform(0.02, 0.98)
-                elif kind == "nan":
-                    v = NAN
-                elif kind == "end":
-                    v = rng.choice(lt.range)
-                elif kind == "below":
-                    v = rlo - width * rng.choice([1e-6, 0.01, 0.5])
-                elif kind == "above":
-                    v = rhi + width * rng.choice([1e-6, 0.01, 0.5])
-                elif kind == "far":
-                    v = rng.choice([-1e6, 1e6])
-                else:
-                    v = ref(rng.choice(sorted(set(t))[:-1]))
-                ys.append(float(v))
-            detect = rng.random() < 0.8
-            domkind = rng.choice(["default", "default", "default", "lower", "both"])
-            if it == 0:
-                detect, domkind = True, "default"
-            ld = ud = None
-            if domkind in ("lower", "both"):
-                ld = float(t[0] + (t[-1] - t[0]) * rng.uniform(0.0, 0.4))
-            if domkind == "both":
-                ud = float(t[0] + (t[-1] - t[0]) * rng.uniform(0.6, 1.0))
-                ud = min(ud, du)
-            form = rng.choice(["scalar", "list", "array", "timeseries"]) if ny > 1 or rng.random() < 0.5 else "scalar"
+        form, detect = case["form"], case["detect"]
+        ld, ud = case["domain"]
+        if form == "scalar":
+            arg = ys[0]
+        elif form == "list":
+            arg = list(ys)
+        elif form == "array":
+            arg = np.array(ys)
+        else:
+            arg = Timeseries(np.arange(float(len(ys))), np.array(ys))
+        kw = {}
+        if ld is not None or ud is not None:
+            kw["domain"] = (ld, ud)
+        if not detect:
+            kw["detect_range_error"] = False
+        r = call(lt.reverse_call, arg, **kw)
+        cls = classify_rev(r)
+        if cls == "ok":
+            out = r[1]
             if form == "scalar":
-                ys = ys[:1]
-                arg = ys[0]
-            elif form == "list":
-                arg = list(ys)
-            elif form == "array":
-                arg = np.array(ys)
+                xs = [float(out)]
+            elif form == "timeseries":
+                xs = [float(v) for v in out.values]
             else:
-                arg = Timeseries(np.arange(float(len(ys))), np.array(ys))
-            kw = {}
-            if domkind != "default":
-                kw["domain"] = (ld, ud)
-            if not detect:
-                kw["detect_range_error"] = False
-            if form == "timeseries" and kw:
-                # the Timeseries form forwards only the values (keyword arguments are dropped)
-                kw, detect, domkind, ld, ud = {}, True, "default", None, None
-            r = call(lt.reverse_call, arg, **kw)
-            cls = classify_rev(r)
-            if cls == "ok":
-                out = r[1]
-                if form == "scalar":
-                    xs = [float(out)]
-                elif form == "timeseries":
-                    xs = [float(v) for v in out.values]
-                else:
-                    xs = [float(v) for v in out]
+                xs = [float(v) for v in out]
+        else:
+            xs = None
+        lo_b, hi_b = (dl if ld is None else ld), (du if ud is None else ud)
+        # the oracle's transcript: the implementation's own answers when it returned, else an
+        # independent brentq on the reference spline
+        roots = []
+        for i, v in enumerate(ys):
+            if math.isnan(v):
+                roots.append(None)
+            elif xs is not None:
+                roots.append(None if i >= len(xs) or math.isnan(xs[i]) else xs[i])
             else:
-                xs = None
-            lo_b, hi_b = (dl if ld is None else ld), (du if ud is None else ud)
-            # the oracle's transcript: the implementation's own answers when it returned, else an
-            # independent brentq on the reference spline
-            roots = []
-            for i, v in enumerate(ys):
-                if math.isnan(v):
+                try:
+                    roots.append(float(brentq(lambda x: ref(x) - v, lo_b, hi_b)))
+                except ValueError:
                     roots.append(None)
-                elif xs is not None:
-                    roots.append(None if i >= len(xs) or math.isnan(xs[i]) else xs[i])
-                else:
-                    try:
-                        roots.append(float(brentq(lambda x: ref(x) - v, lo_b, hi_b)))
-                    except ValueError:
-                        roots.append(None)
-            case = dict(stream="reverse", t=t, w=w, k=k, shape=shape, ys=ys, form=form, detect=detect,
-                        domain=[ld, ud], range_ends=[float(v) for v in lt.range])
-            cases.append((case, cls, xs, r, (rlo, rhi, width, scale, dl, du, lo_b, hi_b), ref))
-            lines.append(dict(op="rev", t=frs(t), w=frs(w), k=k, dl=fr(float(dl)), du=fr(float(du)),
-                              ld=None if ld is None else fr(ld), ud=None if ud is None else fr(ud),
-                              detect=detect, ys=[fr(v) for v in ys],
-                              roots=[None if v is None else fr(v) for v in roots]))
+        cases.append((case, cls, xs, r, (rlo, rhi, width, scale, dl, du, lo_b, hi_b), ref))
+        lines.append(dict(op="rev", t=frs(t), w=frs(w), k=k, dl=fr(float(dl)), du=fr(float(du)),
+                          ld=None if ld is None else fr(ld), ud=None if ud is None else fr(ud),
+                          detect=detect, ys=[fr(v) for v in ys],
+                          roots=[None if v is None else fr(v) for v in roots]))
     outs = c.model(lines)
     for i, (case, cls, xs, r, info, ref) in enumerate(cases):
         rlo, rhi, width, scale, dl, du, lo_b, hi_b = info
@@ -822,7 +863,6 @@ def stream_reverse(c, N):
             sgn = [float(unfr(a)) * float(unfr(b)) for a, b in mo["brackets"]]
             if all(s < -tol * tol for s in sgn):
                 c.disagree("brentq refused although every bracket has a sign change", case, mo["brackets"], cls)
-    c.programs += N
 
 
 # ---------------------------------------------------------------------------------------------
@@ -1201,15 +1241,57 @@ def run(c):
 
 
 def replay(c, rp):
+    """re-run the recorded failing inputs (by stream) against the current tree"""
     logging.getLogger("rtctools").setLevel(logging.CRITICAL)
     c.prove()
-    for f in rp.get("failures", []) + rp.get("correspondence_disagreements", []):
+    recs = rp.get("failures", []) + rp.get("disagreements", []) + rp.get("correspondence_disagreements", [])
+    fits, revs, hists = [], [], []
+    P = fresh = None
+    for f in recs:
         case = f.get("case") or {}
-        print("replaying", f["what"], {k: case[k] for k in list(case)[:6]})
-        if case.get("stream") == "eval1d" and "t" in case:
+        print("replaying:", f["what"])
+        st = case.get("stream")
+        if st == "eval1d":
             t, w, k = [float(v) for v in case["t"]], [float(v) for v in case["w"]], case["k"]
             q = gen_queries(c.rng, t) + ([float(case["x"])] if "x" in case else [])
-            outs = c.model([dict(op="b1", t=frs(t), w=frs(w), k=k, q=frs(q))])
-            check_table_1d(c, case, t, w, k, q, outs[0] if outs else None)
+            outs = c.model([dict(op="b1", t=frs(t), w=frs(w), k=k, q=frs(q)),
+                            dict(op="d1", t=frs(t), w=frs(w), k=k, d=1, q=frs(q)),
+                            dict(op="d1", t=frs(t), w=frs(w), k=k, d=2, q=frs(q))])
+            ok = outs is not None
+            check_table_1d(c, case, t, w, k, q, outs[0] if ok else None,
+                           outs[1] if ok and outs[1] != "raise" else None, outs[2] if ok and outs[2] != "raise" else None)
             c.count(("replay", "eval1d"))
-    stream_eval2d(c, 0)
+        elif st == "eval2d":
+            tx, ty, w = ([float(v) for v in case[n]] for n in ("tx", "ty", "w"))
+            q = gen_queries_2d(c.rng, tx, ty) + ([(float(case["x"]), float(case["y"]))] if "x" in case else [])
+            outs = c.model([dict(op="b2", tx=frs(tx), ty=frs(ty), w=frs(w), kx=case["kx"], ky=case["ky"],
+                                 q=[[fr(a), fr(b)] for a, b in q])])
+            check_table_2d(c, case, tx, ty, w, case["kx"], case["ky"], q, outs[0] if outs else None)
+            c.count(("replay", "eval2d"))
+        elif st == "fit":
+            fits.append({k: v for k, v in case.items()})
+        elif st == "reverse":
+            revs.append({k: v for k, v in case.items()})
+        elif st in ("cache", "probe-F29"):
+            hists.append(case)
+    if fits:
+        run_fit_cases(c, fits)
+    if revs:
+        for case in revs:
+            case["ys"] = [float("nan") if v == "nan" else float(v) for v in case["ys"]]
+        run_reverse_cases(c, revs)
+    if hists:
+        P, fresh = make_problem_class(), FreshFits()
+        names = ["ya", "yb"]
+        for case in hists:
+            init = dict(case["init"])
+            init["data"] = {n: int(v) for n, v in init["data"].items()}
+            init["ini"] = None if init.get("ini") is None else tuple(init["ini"])
+            evs = [(e[0], e[1], tuple(e[2]) if isinstance(e[2], list) else e[2]) for e in case["evs"]]
+            nm = [n for n in names if n in init["data"]]
+            outs = c.model([dict(op="cache", data=init["data"][n], csvM=init["csvM"],
+                                 ini=None if init["ini"] is None else list(init["ini"]), evs=project(evs, n)) for n in nm])
+            obs = run_history(c, P, fresh, evs, nm, init)
+            c.count(("replay", "cache"))
+            if obs is not None:
+                judge_history(c, fresh, init, evs, nm, obs, None if outs is None else dict(zip(nm, outs)), "cache")
